@@ -7,81 +7,81 @@ open ImathVerif
 
 /-- extracted from the C++ template at T = Sym; 2 path(s) -/
 def Plane3.setPoints {α : Type} [Add α] [Sub α] [Mul α] [Div α] [Neg α] [LT α] [LE α] [DecidableLT α] [DecidableLE α] [DecidableEq α] [OfNat α 0] [OfNat α 2] (tmin : α) (tmax : α) (sqrt : α → α) (p1 : V3 α) (p2 : V3 α) (p3 : V3 α) : (Plane3 α) :=
-  let t812 := (p3.z - p1.z)
-  let t813 := (p3.y - p1.y)
-  let t814 := (p3.x - p1.x)
-  let t815 := (p2.z - p1.z)
-  let t816 := (p2.y - p1.y)
-  let t817 := (p2.x - p1.x)
-  let t820 := ((t817 * t813) - (t816 * t814))
-  let t823 := ((t815 * t814) - (t817 * t812))
-  let t826 := ((t816 * t812) - (t815 * t813))
-  let t827 := (V3.length tmin tmax sqrt ⟨t826, t823, t820⟩)
-  let t833 := (t826 / t827)
-  let t834 := (t823 / t827)
-  let t835 := (t820 / t827)
-  if t827 = (0 : α) then
-    ⟨⟨t826, t823, t820⟩, (((t826 * p1.x) + (t823 * p1.y)) + (t820 * p1.z))⟩
+  let t814 := (p3.z - p1.z)
+  let t815 := (p3.y - p1.y)
+  let t816 := (p3.x - p1.x)
+  let t817 := (p2.z - p1.z)
+  let t818 := (p2.y - p1.y)
+  let t819 := (p2.x - p1.x)
+  let t822 := ((t819 * t815) - (t818 * t816))
+  let t825 := ((t817 * t816) - (t819 * t814))
+  let t828 := ((t818 * t814) - (t817 * t815))
+  let t829 := (V3.length tmin tmax sqrt ⟨t828, t825, t822⟩)
+  let t835 := (t828 / t829)
+  let t836 := (t825 / t829)
+  let t837 := (t822 / t829)
+  if t829 = (0 : α) then
+    ⟨⟨t828, t825, t822⟩, (((t828 * p1.x) + (t825 * p1.y)) + (t822 * p1.z))⟩
   else
-    ⟨⟨t833, t834, t835⟩, (((t833 * p1.x) + (t834 * p1.y)) + (t835 * p1.z))⟩
+    ⟨⟨t835, t836, t837⟩, (((t835 * p1.x) + (t836 * p1.y)) + (t837 * p1.z))⟩
 
 /-- extracted from the C++ template at T = Sym; 2 path(s) -/
 def Plane3.setPointNormal {α : Type} [Add α] [Mul α] [Div α] [Neg α] [LT α] [LE α] [DecidableLT α] [DecidableLE α] [DecidableEq α] [OfNat α 0] [OfNat α 2] (tmin : α) (tmax : α) (sqrt : α → α) (point : V3 α) (n : V3 α) : (Plane3 α) :=
-  let t847 := (V3.length tmin tmax sqrt ⟨n.x, n.y, n.z⟩)
-  let t853 := (n.x / t847)
-  let t854 := (n.y / t847)
-  let t855 := (n.z / t847)
-  if t847 = (0 : α) then
+  let t849 := (V3.length tmin tmax sqrt ⟨n.x, n.y, n.z⟩)
+  let t855 := (n.x / t849)
+  let t856 := (n.y / t849)
+  let t857 := (n.z / t849)
+  if t849 = (0 : α) then
     ⟨⟨n.x, n.y, n.z⟩, (((n.x * point.x) + (n.y * point.y)) + (n.z * point.z))⟩
   else
-    ⟨⟨t853, t854, t855⟩, (((t853 * point.x) + (t854 * point.y)) + (t855 * point.z))⟩
+    ⟨⟨t855, t856, t857⟩, (((t855 * point.x) + (t856 * point.y)) + (t857 * point.z))⟩
 
 /-- extracted from the C++ template at T = Sym; 2 path(s) -/
 def Plane3.setNormalDistance {α : Type} [Add α] [Mul α] [Div α] [Neg α] [LT α] [LE α] [DecidableLT α] [DecidableLE α] [DecidableEq α] [OfNat α 0] [OfNat α 2] (tmin : α) (tmax : α) (sqrt : α → α) (n : V3 α) (d : α) : (Plane3 α) :=
-  let t847 := (V3.length tmin tmax sqrt ⟨n.x, n.y, n.z⟩)
-  if t847 = (0 : α) then
+  let t849 := (V3.length tmin tmax sqrt ⟨n.x, n.y, n.z⟩)
+  if t849 = (0 : α) then
     ⟨⟨n.x, n.y, n.z⟩, d⟩
   else
-    ⟨⟨(n.x / t847), (n.y / t847), (n.z / t847)⟩, d⟩
+    ⟨⟨(n.x / t849), (n.y / t849), (n.z / t849)⟩, d⟩
 
 /-- extracted from the C++ template at T = Sym; 2 path(s) -/
 def Plane3.ctorPoints {α : Type} [Add α] [Sub α] [Mul α] [Div α] [Neg α] [LT α] [LE α] [DecidableLT α] [DecidableLE α] [DecidableEq α] [OfNat α 0] [OfNat α 2] (tmin : α) (tmax : α) (sqrt : α → α) (p1 : V3 α) (p2 : V3 α) (p3 : V3 α) : (Plane3 α) :=
-  let t812 := (p3.z - p1.z)
-  let t813 := (p3.y - p1.y)
-  let t814 := (p3.x - p1.x)
-  let t815 := (p2.z - p1.z)
-  let t816 := (p2.y - p1.y)
-  let t817 := (p2.x - p1.x)
-  let t820 := ((t817 * t813) - (t816 * t814))
-  let t823 := ((t815 * t814) - (t817 * t812))
-  let t826 := ((t816 * t812) - (t815 * t813))
-  let t827 := (V3.length tmin tmax sqrt ⟨t826, t823, t820⟩)
-  let t833 := (t826 / t827)
-  let t834 := (t823 / t827)
-  let t835 := (t820 / t827)
-  if t827 = (0 : α) then
-    ⟨⟨t826, t823, t820⟩, (((t826 * p1.x) + (t823 * p1.y)) + (t820 * p1.z))⟩
+  let t814 := (p3.z - p1.z)
+  let t815 := (p3.y - p1.y)
+  let t816 := (p3.x - p1.x)
+  let t817 := (p2.z - p1.z)
+  let t818 := (p2.y - p1.y)
+  let t819 := (p2.x - p1.x)
+  let t822 := ((t819 * t815) - (t818 * t816))
+  let t825 := ((t817 * t816) - (t819 * t814))
+  let t828 := ((t818 * t814) - (t817 * t815))
+  let t829 := (V3.length tmin tmax sqrt ⟨t828, t825, t822⟩)
+  let t835 := (t828 / t829)
+  let t836 := (t825 / t829)
+  let t837 := (t822 / t829)
+  if t829 = (0 : α) then
+    ⟨⟨t828, t825, t822⟩, (((t828 * p1.x) + (t825 * p1.y)) + (t822 * p1.z))⟩
   else
-    ⟨⟨t833, t834, t835⟩, (((t833 * p1.x) + (t834 * p1.y)) + (t835 * p1.z))⟩
+    ⟨⟨t835, t836, t837⟩, (((t835 * p1.x) + (t836 * p1.y)) + (t837 * p1.z))⟩
 
 /-- extracted from the C++ template at T = Sym; 2 path(s) -/
 def Plane3.ctorPointNormal {α : Type} [Add α] [Mul α] [Div α] [Neg α] [LT α] [LE α] [DecidableLT α] [DecidableLE α] [DecidableEq α] [OfNat α 0] [OfNat α 2] (tmin : α) (tmax : α) (sqrt : α → α) (point : V3 α) (n : V3 α) : (Plane3 α) :=
-  let t847 := (V3.length tmin tmax sqrt ⟨n.x, n.y, n.z⟩)
-  let t853 := (n.x / t847)
-  let t854 := (n.y / t847)
-  let t855 := (n.z / t847)
-  if t847 = (0 : α) then
+  let t849 := (V3.length tmin tmax sqrt ⟨n.x, n.y, n.z⟩)
+  let t855 := (n.x / t849)
+  let t856 := (n.y / t849)
+  let t857 := (n.z / t849)
+  if t849 = (0 : α) then
     ⟨⟨n.x, n.y, n.z⟩, (((n.x * point.x) + (n.y * point.y)) + (n.z * point.z))⟩
   else
-    ⟨⟨t853, t854, t855⟩, (((t853 * point.x) + (t854 * point.y)) + (t855 * point.z))⟩
+    ⟨⟨t855, t856, t857⟩, (((t855 * point.x) + (t856 * point.y)) + (t857 * point.z))⟩
 
 /-- extracted from the C++ template at T = Sym; 2 path(s) -/
 def Plane3.ctorNormalDistance {α : Type} [Add α] [Mul α] [Div α] [Neg α] [LT α] [LE α] [DecidableLT α] [DecidableLE α] [DecidableEq α] [OfNat α 0] [OfNat α 2] (tmin : α) (tmax : α) (sqrt : α → α) (n : V3 α) (d : α) : (Plane3 α) :=
-  let t847 := (V3.length tmin tmax sqrt ⟨n.x, n.y, n.z⟩)
-  if t847 = (0 : α) then
+  let t849 := (V3.length tmin tmax sqrt ⟨n.x, n.y, n.z⟩)
+  if t849 = (0 : α) then
     ⟨⟨n.x, n.y, n.z⟩, d⟩
   else
-    ⟨⟨(n.x / t847), (n.y / t847), (n.z / t847)⟩, d⟩
+    ⟨⟨(n.x / t849), (n.y / t849), (n.z / t849)⟩, d⟩
 
 /-- extracted from the C++ template at T = Sym; 1 path(s) -/
 def Plane3.distanceTo {α : Type} [Add α] [Sub α] [Mul α] (pl : Plane3 α) (p : V3 α) : α :=
@@ -89,41 +89,41 @@ def Plane3.distanceTo {α : Type} [Add α] [Sub α] [Mul α] (pl : Plane3 α) (p
 
 /-- extracted from the C++ template at T = Sym; 1 path(s) -/
 def Plane3.reflectPoint {α : Type} [Add α] [Sub α] [Mul α] [Neg α] [OfNat α 2] (pl : Plane3 α) (p : V3 α) : (V3 α) :=
-  let t871 := ((((p.x * pl.normal.x) + (p.y * pl.normal.y)) + (p.z * pl.normal.z)) - pl.distance)
-  ⟨(((pl.normal.x * t871) * (-(2 : α))) + p.x), (((pl.normal.y * t871) * (-(2 : α))) + p.y), (((pl.normal.z * t871) * (-(2 : α))) + p.z)⟩
+  let t873 := ((((p.x * pl.normal.x) + (p.y * pl.normal.y)) + (p.z * pl.normal.z)) - pl.distance)
+  ⟨(((pl.normal.x * t873) * (-(2 : α))) + p.x), (((pl.normal.y * t873) * (-(2 : α))) + p.y), (((pl.normal.z * t873) * (-(2 : α))) + p.z)⟩
 
 /-- extracted from the C++ template at T = Sym; 1 path(s) -/
 def Plane3.reflectVector {α : Type} [Add α] [Sub α] [Mul α] [OfNat α 2] (pl : Plane3 α) (v : V3 α) : (V3 α) :=
-  let t889 := (((pl.normal.x * v.x) + (pl.normal.y * v.y)) + (pl.normal.z * v.z))
-  ⟨(((pl.normal.x * t889) * (2 : α)) - v.x), (((pl.normal.y * t889) * (2 : α)) - v.y), (((pl.normal.z * t889) * (2 : α)) - v.z)⟩
+  let t891 := (((pl.normal.x * v.x) + (pl.normal.y * v.y)) + (pl.normal.z * v.z))
+  ⟨(((pl.normal.x * t891) * (2 : α)) - v.x), (((pl.normal.y * t891) * (2 : α)) - v.y), (((pl.normal.z * t891) * (2 : α)) - v.z)⟩
 
 /-- extracted from the C++ template at T = Sym; 2 path(s) -/
 def Plane3.intersect {α : Type} [Add α] [Sub α] [Mul α] [Div α] [Neg α] [DecidableEq α] [OfNat α 0] (pl : Plane3 α) (l : Line3 α) : (Bool × (V3 α)) :=
-  let t903 := (((pl.normal.x * l.dir.x) + (pl.normal.y * l.dir.y)) + (pl.normal.z * l.dir.z))
-  let t911 := ((-((((pl.normal.x * l.pos.x) + (pl.normal.y * l.pos.y)) + (pl.normal.z * l.pos.z)) - pl.distance)) / t903)
-  if t903 = (0 : α) then
+  let t905 := (((pl.normal.x * l.dir.x) + (pl.normal.y * l.dir.y)) + (pl.normal.z * l.dir.z))
+  let t913 := ((-((((pl.normal.x * l.pos.x) + (pl.normal.y * l.pos.y)) + (pl.normal.z * l.pos.z)) - pl.distance)) / t905)
+  if t905 = (0 : α) then
     (false, ⟨(0 : α), (0 : α), (0 : α)⟩)
   else
-    (true, ⟨(l.pos.x + (l.dir.x * t911)), (l.pos.y + (l.dir.y * t911)), (l.pos.z + (l.dir.z * t911))⟩)
+    (true, ⟨(l.pos.x + (l.dir.x * t913)), (l.pos.y + (l.dir.y * t913)), (l.pos.z + (l.dir.z * t913))⟩)
 
 /-- extracted from the C++ template at T = Sym; 2 path(s) -/
 def Plane3.intersectT {α : Type} [Add α] [Sub α] [Mul α] [Div α] [Neg α] [DecidableEq α] [OfNat α 0] (pl : Plane3 α) (l : Line3 α) : (Bool × α) :=
-  let t903 := (((pl.normal.x * l.dir.x) + (pl.normal.y * l.dir.y)) + (pl.normal.z * l.dir.z))
-  if t903 = (0 : α) then
+  let t905 := (((pl.normal.x * l.dir.x) + (pl.normal.y * l.dir.y)) + (pl.normal.z * l.dir.z))
+  if t905 = (0 : α) then
     (false, (0 : α))
   else
-    (true, ((-((((pl.normal.x * l.pos.x) + (pl.normal.y * l.pos.y)) + (pl.normal.z * l.pos.z)) - pl.distance)) / t903))
+    (true, ((-((((pl.normal.x * l.pos.x) + (pl.normal.y * l.pos.y)) + (pl.normal.z * l.pos.z)) - pl.distance)) / t905))
 
 /-- extracted from the C++ template at T = Sym; 2 path(s) -/
 def Plane3.neg {α : Type} [Add α] [Mul α] [Div α] [Neg α] [LT α] [LE α] [DecidableLT α] [DecidableLE α] [DecidableEq α] [OfNat α 0] [OfNat α 2] (tmin : α) (tmax : α) (sqrt : α → α) (pl : Plane3 α) : (Plane3 α) :=
-  let t918 := (-pl.distance)
-  let t919 := (-pl.normal.z)
-  let t920 := (-pl.normal.y)
-  let t921 := (-pl.normal.x)
-  let t922 := (V3.length tmin tmax sqrt ⟨t921, t920, t919⟩)
-  if t922 = (0 : α) then
-    ⟨⟨t921, t920, t919⟩, t918⟩
+  let t920 := (-pl.distance)
+  let t921 := (-pl.normal.z)
+  let t922 := (-pl.normal.y)
+  let t923 := (-pl.normal.x)
+  let t924 := (V3.length tmin tmax sqrt ⟨t923, t922, t921⟩)
+  if t924 = (0 : α) then
+    ⟨⟨t923, t922, t921⟩, t920⟩
   else
-    ⟨⟨(t921 / t922), (t920 / t922), (t919 / t922)⟩, t918⟩
+    ⟨⟨(t923 / t924), (t922 / t924), (t921 / t924)⟩, t920⟩
 
 end ImathVerif.Gen
